@@ -17,7 +17,10 @@ CASE_FILE_BYTES = 120000
 TIERS = {"quick": {"n": 1400}, "thorough": {"n": 16000, "exhaustive": True}}
 RULE = ("EXHAUSTIVE part: all histories of length <= 2 (quick, 600) / <= 3 (thorough, 14 424) over a fixed alphabet of 24 "
         "core mutator calls on two keys and two values, each followed by items/reversed/counts/len/copy.copy/== ; plus the "
-        "864-case drain grid (4 prefixes x 8 ways of removing a key x 9 probes x 3 second probes); "
+        "864-case drain grid (4 prefixes x 8 ways of removing a key x 9 probes x 3 second probes); plus the 216-case cycle "
+        "grid (an OMD reachable from its own values - itself, through an attribute holder, through a list - under copy(), "
+        "copy.copy, copy.deepcopy and pickle protocols 0/2/5, then both objects driven and read: the copy's inner "
+        "reference must be the copy for deep kinds, the original for shallow ones, and nothing may raise); "
         "RANDOM part (n cases): class under test OrderedMultiDict (3/4) or its subclass urlutils.QueryParamDict (1/4); histories of 1-40 (thorough: 1-70) public operations over two live OrderedMultiDicts, 2-5 key tokens and "
         "3-6 value tokens (20 hashable objects of varied types + an unhashable list and dict as values), arguments rotated over list/tuple/generator/iterator/list-of-lists, dict/OrderedDict/"
         "mappingproxy/keys()+__getitem__ object, the other OMD, the object itself, kwargs; returned and passed "
@@ -68,7 +71,23 @@ INV[JUNK] = JUNK_T
 assert len(INV) == N_HASHABLE + 1 and N_HASHABLE == 20
 
 
+# Reference tokens 24..29 (Spec.is_ref): values that refer BACK to one of the two live objects of the running
+# history (even: register 0, odd: register 1): 24/25 the OMD itself, 26/27 a Holder whose .params is the OMD,
+# 28/29 a one-element list containing it.  Recognised structurally (by identity of the OMD they reach).
+_REGS = None
+
+
+class Holder:
+    __hash__ = None
+
+    def __init__(self, params):
+        self.params = params
+
+
 def obj(t):
+    if 24 <= t <= 29:
+        target = _REGS[t % 2]
+        return target if t < 26 else (Holder(target) if t < 28 else [target])
     return JUNK if t == JUNK_T else TOK[t]
 
 
@@ -77,6 +96,21 @@ class Unrepresentable(Exception):
 
 
 def tok(o):
+    if _REGS is not None:
+        for i in (0, 1):
+            if o is _REGS[i]:
+                return 24 + i
+        if type(o) is Holder:
+            for i in (0, 1):
+                if o.params is _REGS[i]:
+                    return 26 + i
+            raise Unrepresentable("holder of an object that is neither live OMD")
+        if type(o) is list and len(o) == 1:
+            for i in (0, 1):
+                if o[0] is _REGS[i]:
+                    return 28 + i
+        if isinstance(o, dict) and type(o) is not dict:
+            raise Unrepresentable("an OMD that is neither live object")
     try:
         t = INV[o]
     except KeyError:
@@ -172,6 +206,9 @@ def _shadow(regs, r, op):
         l = [[k, op["d"] if op["d"] is not None else 0] for k in op["ks"]]
     elif n == "copy":
         l = [list(p) for p in o]
+    elif n == "copycyc":
+        deep = op["c"] in ("CkDeepCopy", "CkPickle")
+        l = [[k, (v + 1 if r else v - 1) if (deep and 24 <= v <= 29 and (v % 2 == 0) == bool(r)) else v] for k, v in o]
     regs[r] = l
 
 
@@ -436,6 +473,46 @@ def drain_grid():
                     yield c
 
 
+def cycle_grid():
+    """OMDs reachable from their own values (directly, through an attribute holder, through a list) under every way of
+    copying them: prefix (register 0) x kind of back-reference x copy into register 1 x follow-up on both objects"""
+    import copy
+    a, b, me, x, y, z = 1, 5, 3, 10, 13, 7
+
+    def op(name, r=0, **kw):
+        d = {"r": r, "op": name, "snap": True, "mut": True}
+        d.update(kw)
+        return d
+
+    def rd(name, r=0, **kw):
+        d = {"r": r, "op": name, "snap": False, "mut": True}
+        d.update(kw)
+        return d
+    kinds = [("CkCopy", 0), ("CkCopyCopy", 0), ("CkDeepCopy", 0), ("CkPickle", 0), ("CkPickle", 2), ("CkPickle", 5)]
+    for ref in (24, 26, 28):
+        prefixes = [
+            [op("add", k=a, v=x), op("add", k=me, v=ref), op("add", k=a, v=y)],
+            [op("setitem", k=a, v=ref)],
+            [op("update", a=["pairs", [[a, x], [b, ref], [a, y]], "list"], kw=[]), op("add", k=b, v=y)],
+            [op("addlist", k=a, vs=[x, ref, ref], it="list")],
+        ]
+        for i, pre in enumerate(prefixes):
+            for kind, proto in kinds:
+                followups = [
+                    [],
+                    [op("add", r=1, k=a, v=z), op("add", r=0, k=b, v=z)],
+                    [op("poplast", r=1, k=None, d=None), op("add", r=1, k=me, v=ref + 1), op("pop", r=0, k=a, d=z)],
+                ]
+                for j, fol in enumerate(followups):
+                    tail = [rd("items", r=1, multi=False, how=0), rd("getlist", r=1, k=me, d=None),
+                            rd("get", r=1, k=a, d=None), rd("values", r=0, multi=True, how=0),
+                            rd("todict", r=1, multi=True, how=1), rd("counts", r=1), rd("inverted", r=1),
+                            rd("len", r=0)]
+                    tail[-1]["snap"] = True
+                    yield {"cls": "OMD", "grid": ["cycle", ref, i, kind, proto, j],
+                           "ops": copy.deepcopy(pre + [op("copycyc", r=1, c=kind, proto=proto)] + fol + tail)}
+
+
 GRID_LEN = {"quick": 2, "thorough": 3}
 
 
@@ -443,6 +520,8 @@ def generate(rng, tier, n):
     for c in grid(GRID_LEN[tier]):
         yield c
     for c in drain_grid():
+        yield c
+    for c in cycle_grid():
         yield c
     for _ in range(n):
         yield _gen_case(rng, tier)
@@ -644,6 +723,13 @@ def _do(OMD, regs, op):
         ks = [obj(k) for k in op["ks"]]
         regs[r] = OMD.fromkeys(ks) if op["d"] is None else OMD.fromkeys(iter(ks), obj(op["d"]))
         return val(None), spoil
+    if n == "copycyc":
+        c = op["c"]
+        x = {"CkCopy": lambda: o.copy(), "CkCopyCopy": lambda: copy.copy(o), "CkDeepCopy": lambda: copy.deepcopy(o),
+             "CkPickle": lambda: pickle.loads(pickle.dumps(o, op["proto"]))}[c]()
+        ok = (x is not o) and type(x) is type(o)
+        regs[r] = x
+        return ["bool", ok], spoil
     if n == "copy":
         c = op["c"]
         if c == "CkCopy":
@@ -844,7 +930,9 @@ def run_impl(case):
         from boltons.dictutils import FastIterOrderedMultiDict as OMD   # skip-list variant (see notes)
     else:
         from boltons.dictutils import OrderedMultiDict as OMD
+    global _REGS
     regs = [OMD(), OMD()]
+    _REGS = regs                      # the reference tokens 24..29 denote whatever object is in the register
     obs = []
     for op in case["ops"]:
         spoil = []
@@ -943,6 +1031,8 @@ def _op(op):
         return "New %s %s" % ("None" if op["a"] is None else "(Some %s)" % _arg(op["a"]), _ps(op["kw"]))
     if n == "fromkeys":
         return "FromKeys %s %s" % (_ns(op["ks"]), _opt(op["d"]))
+    if n == "copycyc":
+        return "CopyCyc %s %s" % (op["c"], _b(op["r"]))
     if n == "copy":
         return "CopyOther %s" % op["c"]
     if n in ("items", "keys", "values", "todict"):
